@@ -436,7 +436,12 @@ impl<'a> Gen<'a> {
 
     pub fn val(&mut self, p: &Profile) -> ValSpec {
         let len = self.val_len(p);
-        let kind = if self.rng.chance(1, 6) { 2 } else { 0 };
+        // (one value in twelve is all zero bytes: nothing may take "the slot is zero already" for granted)
+        let kind = match self.rng.below(12) {
+            0 | 1 => 2,
+            2 => 4,
+            _ => 0,
+        };
         ValSpec { len, seed: self.rng.next() as u32, kind }
     }
 
